@@ -110,9 +110,10 @@ macro_rules! scalar_routes {
 macro_rules! parse_route {
     ($ty:ty, $c:expr) => {{
         let t = $c["text"].as_str().unwrap();
+        let std = t.parse::<f64>().ok().map(|x| format!("0x{:016x}", x.to_bits()));
         match t.parse::<$ty>() {
-            Ok(v) => json!({"ok": true, "bits": format!("0x{:016x}", f64::from(v).to_bits())}),
-            Err(e) => json!({"ok": false, "err": e.to_string()}),
+            Ok(v) => json!({"ok": true, "bits": format!("0x{:016x}", f64::from(v).to_bits()), "std": std}),
+            Err(e) => json!({"ok": false, "err": e.to_string(), "std": std}),
         }
     }};
 }
